@@ -18,6 +18,7 @@ import (
 	"bytes"
 	"compress/gzip"
 	"encoding/base64"
+	"encoding/hex"
 	"encoding/json"
 	"fmt"
 	"io"
@@ -31,6 +32,7 @@ import (
 	"sync"
 	"syscall"
 	"time"
+	"unicode/utf8"
 
 	"verifharness/lib"
 
@@ -50,10 +52,35 @@ func init() {
 // ---------------------------------------------------------------------------------------------
 // trees
 
+// BStr is a byte string that survives JSON: text stays text, anything else is written as hex.
+type BStr string
+
+func (b BStr) MarshalJSON() ([]byte, error) {
+	if utf8.ValidString(string(b)) {
+		return json.Marshal(string(b))
+	}
+	return json.Marshal(map[string]string{"hex": hex.EncodeToString([]byte(b))})
+}
+
+func (b *BStr) UnmarshalJSON(d []byte) error {
+	var s string
+	if err := json.Unmarshal(d, &s); err == nil {
+		*b = BStr(s)
+		return nil
+	}
+	var m map[string]string
+	if err := json.Unmarshal(d, &m); err != nil {
+		return err
+	}
+	x, err := hex.DecodeString(m["hex"])
+	*b = BStr(x)
+	return err
+}
+
 type Node struct {
 	Name    string `json:"name"`
 	Kind    string `json:"kind"` // f file, l symlink, d directory
-	Content string `json:"content,omitempty"`
+	Content BStr   `json:"content,omitempty"`
 	Exec    bool   `json:"exec,omitempty"`
 	Target  string `json:"target,omitempty"`
 	Kids    []Node `json:"kids,omitempty"`
@@ -63,7 +90,7 @@ type Node struct {
 type Ent struct {
 	Path    []string `json:"path"`
 	Kind    string   `json:"kind"` // f l d, and for the cache listing: t (readable tarball), j (unreadable file)
-	Content string   `json:"content,omitempty"`
+	Content BStr     `json:"content,omitempty"`
 	Exec    bool     `json:"exec,omitempty"`
 	Target  string   `json:"target,omitempty"`
 	Tar     []Ent    `json:"tar,omitempty"`
@@ -122,7 +149,7 @@ func listTree(dir string, prefix []string, out *[]Ent) {
 			listTree(p, path, out)
 		default:
 			b, _ := os.ReadFile(p)
-			*out = append(*out, Ent{Path: path, Kind: "f", Content: string(b), Exec: info.Mode()&0o100 != 0})
+			*out = append(*out, Ent{Path: path, Kind: "f", Content: BStr(b), Exec: info.Mode()&0o100 != 0})
 		}
 	}
 }
@@ -145,7 +172,7 @@ func flat(ns []Node, prefix []string, out *[]Ent) {
 }
 
 func entKey(e Ent) string {
-	return strings.Join(e.Path, "/") + "\x00" + e.Kind + "\x00" + e.Content + "\x00" + strconv.FormatBool(e.Exec) + "\x00" + e.Target
+	return strings.Join(e.Path, "/") + "\x00" + e.Kind + "\x00" + string(e.Content) + "\x00" + strconv.FormatBool(e.Exec) + "\x00" + e.Target
 }
 
 // sameTree compares two listings as sets of entries.
@@ -236,7 +263,7 @@ func readTarball(p string) ([]Ent, bool) {
 			if _, err := io.Copy(&b, tr); err != nil {
 				return nil, false
 			}
-			out = append(out, Ent{Path: path, Kind: "f", Content: b.String(), Exec: hdr.Mode&0o100 != 0})
+			out = append(out, Ent{Path: path, Kind: "f", Content: BStr(b.String()), Exec: hdr.Mode&0o100 != 0})
 		}
 	}
 	// the gzip trailer must be intact too
@@ -352,6 +379,7 @@ func childMain(specPath string) {
 		must(os.WriteFile(filepath.Join(sp.Root, "started"), nil, 0o644))
 		for i := 0; i < sp.Loops; i++ {
 			c.Store(tgt, sp.Key, sp.Outs)
+			time.Sleep(time.Duration(i%4) * 300 * time.Microsecond) // let the entry exist for a moment
 			if _, err := os.Stat(filepath.Join(sp.Root, "stop")); err == nil {
 				break
 			}
@@ -504,7 +532,7 @@ func coqPath(p []string) string { return lib.StrList(p) }
 func coqEnt(e Ent) string {
 	switch e.Kind {
 	case "f":
-		return lib.App("F", lib.Str(e.Content), lib.Bool(e.Exec))
+		return lib.App("F", lib.Str(string(e.Content)), lib.Bool(e.Exec))
 	case "l":
 		return lib.App("L", lib.Str(e.Target))
 	default:
@@ -601,9 +629,9 @@ func shapes(n int) [][]Node {
 				nd := Node{Name: name}
 				switch p.kind {
 				case "f":
-					nd.Kind, nd.Content = "f", "data-"+name
+					nd.Kind, nd.Content = "f", BStr("data-"+name)
 				case "x":
-					nd.Kind, nd.Content, nd.Exec = "f", "#!"+name, true
+					nd.Kind, nd.Content, nd.Exec = "f", BStr("#!"+name), true
 				case "l":
 					nd.Kind = "l"
 					if i > 0 {
@@ -639,7 +667,7 @@ func randName(r *lib.Rng, used map[string]bool) string {
 	}
 }
 
-func randContent(r *lib.Rng, big bool) string {
+func randContent(r *lib.Rng, big bool) BStr {
 	n := r.Intn(24)
 	if big && r.Chance(1, 3) {
 		n = 3000 + r.Intn(9000) // crosses the 4096-byte bufio buffer of the compressed store
@@ -655,7 +683,7 @@ func randContent(r *lib.Rng, big bool) string {
 			b[i] = byte('a' + r.Intn(26))
 		}
 	}
-	return string(b)
+	return BStr(b)
 }
 
 func randForest(r *lib.Rng, budget *int, depth int, big bool) []Node {
@@ -820,7 +848,7 @@ func runRoundTrip(c *lib.Ctx, r *lib.Rng, compress bool, tree []Node, outs []str
 		term := lib.App("CStore", lib.Bool(compress), coqPaths(order), coqFs(prior), lib.StrList(outs), coqTree(want),
 			"false", coqFs(post), coqResult(rt.Hit, rt.Restored))
 		c.Case(term, rt, fmt.Sprintf("rt|%v|%v|%v|%v", compress, tree, outs, old), countNodes(tree) > 0)
-		c.Case(lib.App("CMissing", lib.Bool(compress), coqFs(post), lib.StrList(outs), lib.Bool(hit2)), rt, "", false)
+		c.Case(lib.App("CMissing", lib.Bool(compress), coqFs(listCache(cdir, other, compress)), lib.StrList(outs), lib.Bool(hit2)), rt, "", false)
 	} else {
 		c.Eval(rt, fmt.Sprintf("rt|%v|%v|%v|%v", compress, tree, outs, old), true)
 	}
@@ -1052,6 +1080,7 @@ func main() {
 		c.Rule("a case = (compressed?, prior cache state of the key, output forest, crash point); distinct by the whole input; non-trivial when the forest has at least one node. " +
 			"Round trips: every forest shape up to 3 (quick) / 4 (thorough) nodes over {file, executable, symlink, directory}, x compressed/uncompressed, plus random larger forests and overwriting stores; " +
 			"crash points: the store runs in a helper process under strace and is killed on entry to each of its mutating syscalls in turn; races: a helper stores one key repeatedly while this process retrieves it")
+		only := os.Getenv("C12_ONLY") // development aid: run one section only
 		if _, err := exec.LookPath("strace"); err != nil {
 			panic("strace is required for the crash-point runs: " + err.Error())
 		}
@@ -1072,6 +1101,9 @@ func main() {
 
 		// ---- 1. round trips -------------------------------------------------------------------
 		maxNodes := c.Scale(3, 4)
+		if only != "" && only != "rt" {
+			maxNodes = -1
+		}
 		exh := 0
 		for n := 0; n <= maxNodes; n++ {
 			for _, tree := range shapes(n) {
@@ -1083,6 +1115,9 @@ func main() {
 		}
 		c.Note("exhaustive shapes up to %d nodes x {plain, compressed}: %d round trips", maxNodes, exh)
 		nr := c.Scale(60, 600)
+		if only != "" && only != "rt" {
+			nr = 0
+		}
 		for i := 0; i < nr; i++ {
 			r := c.Rng.Fork()
 			budget := 3 + r.Intn(10)
@@ -1123,9 +1158,10 @@ func main() {
 			}
 			jobs = append(jobs, j)
 		}
-		f := func(name, content string) Node { return Node{Name: name, Kind: "f", Content: content} }
+		f := func(name, content string) Node { return Node{Name: name, Kind: "f", Content: BStr(content)} }
 		dir := func(name string, kids ...Node) Node { return Node{Name: name, Kind: "d", Kids: kids} }
 		treeA := []Node{dir("d", f("a", "1"), f("b", "2")), f("m", "meta")}
+		treeD := []Node{dir("d", f("a", "1"), f("b", "2"))}
 		treeB := []Node{f("m", "meta"), {Name: "x", Kind: "f", Content: "#!", Exec: true}, {Name: "l", Kind: "l", Target: "x"}}
 		treeC := []Node{dir("d", f("a", "1"), dir("e", f("c", "3")), Node{Name: "s", Kind: "l", Target: "a"}), dir("empty")}
 		// the corpus: absent key, overwrite of files only, overwrite of a directory (DESIGN.md's
@@ -1134,6 +1170,7 @@ func main() {
 		add("absent", true, nil, nil, treeA)
 		add("overwrite-files", false, treeB, nil, treeB)
 		add("overwrite-dir", false, treeA, nil, treeA)
+		add("overwrite-dir-only", false, treeD, nil, treeD)
 		add("overwrite-dir", true, treeA, nil, treeA)
 		add("leftover-tmp", false, nil, treeC, treeA)
 		if c.Thor {
@@ -1165,6 +1202,9 @@ func main() {
 				label = "random-leftover"
 			}
 			add(label, r.Chance(1, 3), old, tmp, tree)
+		}
+		if only != "" && only != "crash" {
+			jobs = nil
 		}
 		results := make([]crashResult, len(jobs))
 		var wg sync.WaitGroup
@@ -1219,10 +1259,18 @@ func main() {
 
 		// ---- 3. races -------------------------------------------------------------------------
 		loops, retr := c.Scale(150, 1500), c.Scale(300, 3000)
+		if only != "" && only != "race" {
+			return
+		}
 		runRace(c, c.Rng.Fork(), false, treeA, 1, 50)   // first store of an absent key
 		runRace(c, c.Rng.Fork(), true, treeA, 1, 50)
-		runRace(c, c.Rng.Fork(), false, treeC, loops, retr) // repeated (overwriting) stores
-		runRace(c, c.Rng.Fork(), true, treeC, loops, retr)
+		wide := dir("w")
+		for i := 0; i < 24; i++ {
+			wide.Kids = append(wide.Kids, f(fmt.Sprintf("f%02d", i), strconv.Itoa(i)))
+		}
+		treeW := []Node{wide, f("m", "meta")}
+		runRace(c, c.Rng.Fork(), false, treeW, loops, retr) // repeated (overwriting) stores
+		runRace(c, c.Rng.Fork(), true, treeW, loops, retr)
 	})
 }
 
